@@ -93,6 +93,31 @@ where
             }
         }
     }
+    // message lists with runs of EQUAL neighbouring messages (and runs of empty messages): a list is a list
+    {
+        let (sk, pk) = rand_keypair::<CS>(h);
+        let a = rand_msg(h);
+        let b = rand_msg(h);
+        let e: Vec<u8> = vec![];
+        let lists: Vec<Vec<Vec<u8>>> = vec![
+            vec![a.clone(), a.clone()],
+            vec![b.clone(), a.clone(), a.clone(), b.clone()],
+            vec![a.clone(), a.clone(), a.clone(), b.clone(), b.clone()],
+            vec![e.clone(), e.clone(), e.clone()],
+            vec![a.clone(), e.clone(), e.clone(), a.clone(), a.clone()],
+        ];
+        for msgs in lists {
+            let hdr = rand_header(h);
+            h.stat("C01.equal_neighbours");
+            let s = sign::<CS>(h, &sk, &pk, hdr.as_deref(), Some(&msgs));
+            let sid = h.last();
+            h.expect(s.is_ok(), "C01.sign", "sign failed on a list with equal neighbouring messages", &[sid]);
+            if let Some(s) = s.ok() {
+                let v = verify::<CS>(h, &pk, s.bbsPlusSignature(), hdr.as_deref(), Some(&msgs));
+                h.expect(v.is_ok(), "C01.verify_equal_neighbours", "verify(sign(x)) != Ok for a list with equal neighbouring messages", &[sid, h.last()]);
+            }
+        }
+    }
     // state that survives between operations (scratch buffers, caches): large operations in DECREASING size
     // order on this thread, and every earlier artefact verified again after all later operations
     {
